@@ -269,9 +269,21 @@ def run(ctx, case):
     ns = loader.load()
     T = case["spec"]
     rng = random.Random(case["hseed"])
+    will_reload = rng.random() < 0.2
+    if will_reload:
+        # (limits that do not apply to a component's kind are legitimately not persisted - C12 - so a target that is
+        # to pass through a file is configured with applicable limits only)
+        from .c09 import applicable
+
+        T = copy.deepcopy(T)
+        for c in T["comps"]:
+            if c.get("limits"):
+                c["limits"] = {k: v for k, v in c["limits"].items() if k in applicable(c["kind"])} or None
     ops, used = plan_history(rng, T, case["detour_rate"])
+    reload_at = rng.randrange(1, max(2, len(ops))) if will_reload else -1
     _, start, g0, r0 = ops[0]
     E = ns.System(T.get("name", "sys"), hist.make(ns, start), group=g0, rail=r0)
+    reloaded = False
     for k, op in enumerate(ops[1:]):
         if op["op"] == "analyse":
             with H.quiet(), H.tmpdir() as dd:
@@ -289,6 +301,16 @@ def run(ctx, case):
                 else:
                     H.call(getattr(E, an))
             ctx.ev("history.interleaved_analysis")
+        if st == "ok" and not reloaded and k + 1 >= reload_at > 0:
+            # the half-built system is saved and the history continues on the RELOADED copy (a loaded system is a
+            # system like any other; nothing may stay shared with, or missing from, the object it was saved from)
+            with H.quiet(), H.tmpdir() as dd:
+                fn_ = os.path.join(dd, "mid.json")
+                s_, _r = H.call(E.save, fn_)
+                s2_, E2 = H.call(ns.System.from_file, fn_) if s_ == "ok" else ("raise", None)
+            if s2_ == "ok":
+                E, reloaded = E2, True
+                used.append("continued_on_reloaded_copy")
         if st != "ok":
             ctx.count("history", "abandoned: %s rejected (%s)" % (hist.op_sig(op), type(e).__name__))
             ctx.inconc("detour op rejected: %s -> %s" % (json.dumps(op)[:200], H.exc_sig(e)))
